@@ -243,6 +243,13 @@ func (r *Run) Inflight(c interface{}) {
 	_ = os.WriteFile(filepath.Join(r.OutDir, fmt.Sprintf("inflight-%s-%d.json", r.Part, r.Shard)), data, 0o644)
 }
 
+// crashGuarded lists the properties whose checks run goroutines of the code under test (the device's MIDI-input and LED
+// goroutines, the relay, the fan-out, the watcher): an unrecovered panic there kills the test process, which no recover in the
+// harness can turn into a violation. For these the case about to be executed is persisted, and the driver reports the death of
+// the process as a violation when the crash trace points into gethiox/HIDI (see crash_in_code_under_test in ./check).
+var crashGuarded = map[string]bool{"C01": true, "C02": true, "C03": true, "C04": true, "C05": true, "C06": true, "C07": true,
+	"C08": true, "C13": true, "C14": true, "C15": true, "C19": true}
+
 func (r *Run) InflightDone() {
 	_ = os.Remove(filepath.Join(r.OutDir, fmt.Sprintf("inflight-%s-%d.json", r.Part, r.Shard)))
 }
@@ -362,6 +369,14 @@ func trimStack(st string) string {
 func ReplayOrRapid[C any](t *testing.T, r *Run, check func(C) (bool, *Violation), gen func(*rapid.T) C) {
 	defer r.Finish()
 	curRun = r
+	if crashGuarded[r.Property] {
+		inner := check
+		check = func(c C) (bool, *Violation) {
+			r.Inflight(c)
+			return inner(c)
+		}
+		defer r.InflightDone()
+	}
 	if path := os.Getenv("VERIF_REPLAY"); path != "" {
 		c, err := loadCase[C](path)
 		if err != nil {
